@@ -1,10 +1,139 @@
 import Driver.Util
-open Lean Replicat
+import ReplicatModel.Options
+open Lean Replicat Replicat.Gen Replicat.Options
 namespace Driver
 
-/-- requests `options.*` (see DESIGN.md Appendix A) -/
+/-! requests `options.*` (DESIGN.md Appendix A): the model of `main()`'s option pipeline for one option row.
+Values are whatever JSON the harness uses for Python values (`{"t": "str", "v": …}`); what the leaf functions
+(`guess_type`, `parse_repository`, …) return on them is supplied in the request (`co`: computed by the REAL functions
+in the harness), because the model is parametric in them. -/
+
+def tyName : OptTy → String
+  | .none => "none" | .parseRepository => "parseRepository" | .path => "path"
+  | .naturalNumberCli => "naturalNumberCli" | .naturalNumberCfg => "naturalNumberCfg"
+  | .readBytesCli => "readBytesCli" | .readBytesCfg => "readBytesCfg" | .fsencode => "fsencode"
+  | .strEncode => "strEncode" | .checkBoolean => "checkBoolean" | .guessType => "guessType"
+  | .convertLogLevel => "convertLogLevel" | .rateLimit => "rateLimit" | .parseList => "parseList"
+  | .environb => "environb" | .other => "other"
+
+def cliKindName : OptCliKind → String
+  | .typed => "typed" | .constNone => "constNone" | .constTrue => "constTrue" | .multi => "multi" | .other => "other"
+
+def fileKindName : OptFileKind → String
+  | .plain => "plain" | .nullIfTrue => "nullIfTrue" | .other => "other"
+
+def errName : Err → String
+  | .argparse => "argparse" | .invalidConfig => "invalidConfig" | .configValue => "configValue" | .model => "model"
+
+def missingMarker : Json := Json.str "<<no entry in the co table>>"
+
+def isType (v : Json) (t : String) : Bool :=
+  match v.getObjVal? "t" with
+  | .ok (Json.str s) => s == t
+  | _ => false
+
+/-- the semantics carried by a request -/
+def semOf (table : List (String × Option Json)) : Sem Json where
+  co ty v :=
+    match table.find? (fun e => e.1 == tyName ty ++ "|" ++ v.compress) with
+    | some (_, r) => r
+    | none => some missingMarker
+  isStr v := isType v "str"
+  truthy v := match v.getObjVal? "v" with
+    | .ok (Json.bool b) => b
+    | _ => false
+  noneV := Json.mkObj [("t", Json.str "none")]
+  trueV := Json.mkObj [("t", Json.str "bool"), ("v", Json.bool true)]
+
+def getPairs (j : Json) (k : String) : Except String (List (Nat × Json)) := do
+  match j.getObjVal? k with
+  | .error _ => pure []
+  | .ok Json.null => pure []
+  | .ok v =>
+    let a ← v.getArr?
+    a.toList.mapM (fun p => do
+      let pa ← p.getArr?
+      match pa.toList with
+      | [i, raw] => pure ((← i.getNat?), raw)
+      | _ => throw "pair expected")
+
+def getOptVal (j : Json) (k : String) : Option Json :=
+  match j.getObjVal? k with
+  | .ok Json.null => none
+  | .ok v => some v
+  | .error _ => none
+
+def exceptJson (r : Except Err Json) : Json :=
+  match r with
+  | .ok v => Json.mkObj [("ok", v)]
+  | .error e => Json.mkObj [("error", Json.str (errName e))]
+
+def rowJson (r : OptRow) : Json :=
+  Json.mkObj [
+    ("dest", Json.str r.dest), ("scope", jnat r.scope), ("owner", Json.str r.owner),
+    ("cli", Json.arr (r.cli.map (fun v => Json.mkObj [("flag", Json.str v.flag), ("flags", Json.arr (v.flags.map Json.str).toArray),
+      ("kind", Json.str (cliKindName v.kind)), ("ty", Json.str (tyName v.ty)),
+      ("group", match v.group with | some g => jnat g | none => Json.null), ("dflt", jnat v.dflt)])).toArray),
+    ("env", match r.env with | some (n, ty) => Json.mkObj [("var", Json.str n), ("ty", Json.str (tyName ty))] | none => Json.null),
+    ("file", Json.arr (r.file.map (fun f => Json.mkObj [("key", Json.str f.key), ("kind", Json.str (fileKindName f.kind)),
+      ("ty", Json.str (tyName f.ty))])).toArray),
+    ("inCfg", Json.bool r.inCfg), ("early", Json.bool r.early), ("builtinKind", jnat r.builtinKind)]
+
+def findRow (owner dest : String) : Except String OptRow :=
+  match optRows.find? (fun r => r.owner == owner && r.dest == dest) with
+  | some r => pure r
+  | none => throw s!"no row {owner}/{dest}"
+
+def findCmd (name : String) : Except String OptCommand :=
+  match optCommands.find? (fun c => c.name == name || c.aliases.contains name) with
+  | some c => pure c
+  | none => throw s!"no command {name}"
+
 def handleOptions (op : String) (j : Json) : Except String Json := do
   match op with
+  | "options.table" =>
+    pure (Json.mkObj [
+      ("rows", Json.arr (optRows.map rowJson).toArray),
+      ("commands", Json.arr (optCommands.map (fun c => Json.mkObj [("name", Json.str c.name),
+        ("aliases", Json.arr (c.aliases.map Json.str).toArray), ("setDefaults", Json.bool c.setDefaults),
+        ("parents", Json.bool c.parents)])).toArray),
+      ("fileMutex", Json.arr (optFileMutex.map (fun g => Json.arr (g.map Json.str).toArray)).toArray),
+      ("steps", jnat optSteps.length)])
+  | "options.resolve" =>
+    let cmd ← findCmd (← getStr j "command")
+    let row ← findRow (← getStr j "owner") (← getStr j "dest")
+    let coArr ← getArr j "co"
+    let table ← coArr.toList.mapM (fun e => do
+      let ea ← e.getArr?
+      match ea.toList with
+      | [ty, raw, res] => pure ((← ty.getStr?) ++ "|" ++ raw.compress, (if res.isNull then none else some res))
+      | _ => throw "co entry: [ty, raw, result|null] expected")
+    let sem := semOf table
+    let builtin ← j.getObjVal? "builtin"
+    let inp : Inputs Json := { cli := ← getPairs j "cli", env := getOptVal j "env", prof := ← getPairs j "prof",
+                                dflt := ← getPairs j "dflt", builtin := builtin }
+    let res := pipeline sem cmd row inp
+    let resJ := match res with
+      | .ok o => Json.mkObj [("ok", Json.mkObj [("final", o.final), ("atLoad", o.atLoad)])]
+      | .error e => Json.mkObj [("error", Json.str (errName e))]
+    -- the specification and the hypotheses of the theorems, when the inputs are "simple"
+    let simple : Option (Simple Json) :=
+      if inp.cli.length ≤ 1 && inp.prof.length ≤ 1 && inp.dflt.length ≤ 1 then
+        some { cli := inp.cli.head?, env := inp.env, prof := inp.prof.head?, dflt := inp.dflt.head?, builtin := builtin }
+      else none
+    let extra := match simple with
+      | some s => [("spec", exceptJson (spec sem row s)), ("valid", Json.bool (valid sem row s)),
+                   ("fileOkProf", Json.bool (fileOk sem row s.prof)), ("fileOkDflt", Json.bool (fileOk sem row s.dflt))]
+      | none => []
+    pure (Json.mkObj ([("pipeline", resJ)] ++ extra))
+  | "options.two_flags" =>
+    -- argparse's verdict on two flags of one sub-command
+    let cmd ← findCmd (← getStr j "command")
+    let fa ← getStr j "a"
+    let fb ← getStr j "b"
+    match (flagsOf cmd).find? (fun v => v.flags.contains fa), (flagsOf cmd).find? (fun v => v.flags.contains fb) with
+    | some a, some b => pure (Json.mkObj [("rejected", Json.bool (match twoFlags a b with | .ok _ => false | .error _ => true))])
+    | _, _ => throw "unknown flag"
   | _ => throw s!"unknown op {op}"
 
 end Driver
